@@ -139,6 +139,10 @@ func Run(file *paths.Path, profile string) (string, error) {
 		}
 		for _, match := range matches {
 			opt := NewOption(file, match)
+			if !strings.Contains(profile, opt.Raw) {
+				// Removed by an earlier directive (a guarded paragraph)
+				continue
+			}
 			drtv, ok := Directives[opt.Name]
 			if !ok {
 				return "", fmt.Errorf("unknown directive '%s' in %s", opt.Name, opt.File)
